@@ -181,6 +181,10 @@ impl NameMap {
                     // Assign a name
                     let name = if kept_names.contains(name) {
                         // If there are no duplicate names and the direct name is free then use that
+                        // Global variables may become function parameters so a local variable can not share their name
+                        if let NameSymbol::GlobalVariable(_) = symbol {
+                            used_names_all_scopes.insert(name.clone());
+                        }
                         name.clone()
                     } else {
                         // Attempt to assign a name with an incrementing index
